@@ -97,6 +97,9 @@ func init() {
 	c06 := txWorlds()
 	for i := range c06 {
 		c06[i].CheckFirst = true
+		// "the same state": the CheckTx issued before every DeliverTx must leave no trace. Twin: the
+		// same history without any CheckTx; responses of the last block and the app hash must agree.
+		c06[i].OnTransition = c06NoTrace
 	}
 	regExplore("C06", c06, one(monitors.CheckEqDeliver{}))
 }
